@@ -255,7 +255,9 @@ def call_builtin(eng, p, args, kwargs, fr, node):
         sp = eng.iterspec(args[0], fr)
         start = eng.as_int(args[1], fr) if len(args) > 1 else z3.IntVal(0)
         if sp.lazy is not None:
-            return SV("iter", IterSpec(sp.length, None, lazy=sp.lazy, desc="enumerate-lazy"), meta={"enum_start": start})
+            sp2 = IterSpec(sp.length, None, lazy=sp.lazy, desc="enumerate-lazy")
+            sp2.start = start
+            return SV("iter", sp2, meta={"enum_start": start})
         return SV("iter", IterSpec(sp.length, lambda i: mk_tuple([mk_int(start + i), sp.elem(i)]), desc="enumerate"))
     if name == "range":
         from .exec import IterSpec
